@@ -274,3 +274,23 @@ func oneLine(s string) string {
 	}
 	return s
 }
+
+// FinishReplay prints the verdict of a replayed single case without
+// touching the evidence file.
+func (r *Reporter) FinishReplay() int {
+	r.mu.Lock()
+	defer r.mu.Unlock()
+	for _, k := range sortedKeys(r.knownHits) {
+		fmt.Printf("KNOWN-FINDING: property=%s key=%s %s\n", r.Prop, k, oneLine(r.known[k].What))
+	}
+	for _, k := range r.vioOrder {
+		v := r.violations[k]
+		fmt.Printf("  violation key=%s: %s\n", k, oneLine(v.What))
+		fmt.Printf("VIOLATION property=%s replay=%s\n", r.Prop, v.Replay)
+	}
+	if len(r.violations) > 0 {
+		return 1
+	}
+	fmt.Println("no violation on replay")
+	return 0
+}
